@@ -88,6 +88,8 @@ Definition c02_check (c : c02_case) : issues :=
   | CycleCase states =>
       spec_if (forallb (fun s => let '(_, len, idx) := s in current_query_ok {| cy_len := len; cy_idx := idx |}) states)
               "the cycle-list sequencer points outside the list"
+      ++ spec_if (forallb (fun s => let '(lbl, _, _) := s in negb (String.eqb lbl "end/2")) states)
+                 "the end blocker failed after a cycle-list history"
       ++ match states with
          | (_, len, idx) :: t => diff_if (cycle_trans_ok (len, idx) t) "cycle list transition"
          | [] => []
